@@ -145,6 +145,35 @@ def register_update(R):
                       1: {"index": "k1", "types": {"feature_distances": "Opaque[AnyList]"},
                           "havoc_locals": ["feature_distances", "total_distance", "f", "f_distance"], "invariant": []}})
 
+    # CDBD (C14): the one-column guard of the univariate detector.  A batch with more than one column is refused with
+    # ValueError before anything else happens - whatever its container, in particular a DataFrame arriving after a history of
+    # plain arrays, which the base-class validation alone would let through (known finding KF-C14-df-width-gap-batch);
+    # otherwise the call is HistogramDensityMethod.update (through its contract, detect_batch 2 and 3)
+    CD = "menelaus.data_drift.cdbd:CDBD"
+    R.klass(CD, fields=f, invariant=[
+        ("C01", "self._drift_state is None or self._drift_state == 'drift'"),
+        ("C01", "0 <= self._batches_since_reset and self._batches_since_reset <= self._total_batches"),
+    ] + list(MEMO_INV))
+    HDM_MOD = ["_total_batches", "_batches_since_reset", "_drift_state", "_input_cols", "_input_col_dim", "epsilon", "total_epsilon",
+               "reference_n", "_bins", "reference", "current_distance", "_prev_distance", "distances", "epsilon_values",
+               "thresholds", "beta", "feature_epsilons", "_prev_feature_distances", "_reference_density", "feature_info", "_lambda"]
+    R.contract(CD + ".update", tags=("C14",), params={"X": "RawX", "y_true": "RawY", "y_pred": "RawY"},
+               reads_not=["y_true", "y_pred"], reads_not_tags=("C16",),
+               calls={M + ".update": "contract"},
+               requires=["self.detect_batch != 1", "self._input_col_dim is not None"],
+               raises={"ValueError": {"when": "bwidth(X) != 1 or " + B_REJECT, "iff": True, "tags": "C14", "ensures": [
+                   ("C14", "self._total_batches == old(self._total_batches)")]}},
+               ensures=[("C14", "bwidth(X) == 1"), ("C01", "self._total_batches == old(self._total_batches) + 1")],
+               modifies=HDM_MOD, check_invariant=False)
+    R.contract(CD + ".set_reference", tags=("C14",), params={"X": "RawX", "y_true": "RawY", "y_pred": "RawY"},
+               reads_not=["y_true", "y_pred"], reads_not_tags=("C16",),
+               calls={M + ".set_reference": "contract"},
+               requires=["self.detect_batch != 1"],
+               raises={"ValueError": {"when": "bwidth(X) != 1 or " + B_REJECT, "iff": True, "tags": "C14",
+                                      "ensures": [("C14", "unchanged(self)")]}},
+               ensures=[("C14", "bwidth(X) == 1"), "len(self.reference) == brows(X)", "unchanged(self._total_batches)"],
+               modifies=["_batches_since_reset", "_drift_state", "_input_cols", "_input_col_dim", "epsilon", "total_epsilon",
+                         "reference_n", "_bins", "reference", "_lambda"], check_invariant=False)
     R.contract(M + ".set_reference", tags=("C07", "C02"), on_self="HDDDM", params={"X": "RawX", "y_true": "RawY", "y_pred": "RawY"},
                reads_not=["y_true", "y_pred"], reads_not_tags=("C16",),
                calls={M + ".reset": "contract"},
